@@ -369,7 +369,81 @@ def cases(draw):
     return case
 
 
+class _DP:
+    """minimal data provider over fuzzer bytes (independent of atheris so that replays need no fuzzer)"""
+
+    def __init__(self, data):
+        self.d = data
+        self.i = 0
+
+    def u8(self):
+        if self.i >= len(self.d):
+            return 0
+        v = self.d[self.i]
+        self.i += 1
+        return v
+
+    def take(self, n):
+        out = self.d[self.i:self.i + n]
+        self.i += n
+        return out
+
+
+def fuzz_case(data: bytes):
+    """structure-aware decoding of fuzzer bytes into a wire case: protocol, operation, length forms and a binding
+    list whose values are canonical by construction"""
+    dp = _DP(data)
+    proto = C06_PROTOS[dp.u8() % len(C06_PROTOS)]
+    v1 = proto["v"] == "1"
+    ops = ["multiget", "multigetnext", "get", "getnext"] + ([] if v1 else ["bulkget"])
+    op = ops[dp.u8() % len(ops)]
+    forms = [[None, 0, 1, 2, 3, 4][dp.u8() % 6] for _ in range(1 + dp.u8() % 8)]
+    n = 1 if op in ("get", "getnext") else 1 + dp.u8() % 6
+    vbs = []
+    for i in range(n):
+        tag = ALL_TAGS[dp.u8() % len(ALL_TAGS)]
+        if v1 and tag == vber.T_COUNTER64:
+            tag = vber.T_COUNTER
+        k = dp.u8()
+        if tag == vber.T_INT:
+            c = vber.int_content(int.from_bytes(dp.take(1 + k % 4) or b"\0", "big", signed=True))
+        elif tag in (vber.T_COUNTER, vber.T_GAUGE, vber.T_TICKS):
+            c = vber.int_content(int.from_bytes(dp.take(1 + k % 4) or b"\0", "big"))
+        elif tag == vber.T_COUNTER64:
+            c = vber.int_content(int.from_bytes(dp.take(1 + k % 8) or b"\0", "big"))
+        elif tag in (vber.T_OCTETS, vber.T_OPAQUE):
+            c = dp.take(k if k < 200 else (k - 199) * 60)
+        elif tag == vber.T_OID:
+            arcs = [int.from_bytes(dp.take(1 + (k >> 6)), "big") for _ in range(k % 8)]
+            c = vber.oid_content((1, 3) + tuple(arcs))
+        elif tag == vber.T_IPADDR:
+            c = (dp.take(4) + b"\0\0\0\0")[:4]
+        else:
+            c = b""
+        if not v1 and k % 11 == 0:
+            marker = {"get": vber.T_NOSUCHOBJECT, "multiget": vber.T_NOSUCHINSTANCE}.get(op, vber.T_ENDOFMIBVIEW)
+            tag, c = marker, b""
+        vbs.append([[1, 3, 6, 1, 4, 1, 7, i + 1, dp.u8()], tag, c.hex()])
+    case = dict(kind="wire", proto=proto, op=op, forms=forms, clock=int.from_bytes(dp.take(4), "big") % (2 ** 31), ei=dp.u8() % 3,
+                vbs=vbs)
+    if op == "bulkget":
+        case["nscalar"] = dp.u8() % min(n, 3)
+    return case
+
+
+def fuzz_corpus():
+    return [bytes([p, o, 3, 0, 1, 4, 2, 5, 1, 33, 7, 9, 200, 1, 2, 3, 4, 5, 6, 7, 8]) + bytes(range(40)) for p in range(4) for o in range(5)]
+
+
 def units(tier, seed):
     n = 260 if tier == "quick" else 10000
-    return [Unit("hyp-%d" % sh, hypothesis_unit, strategy=cases(), examples=n, seed=shard_seed(seed, sh),
+    if tier == "thorough":
+        import vfuzz
+
+        fz = [Unit("atheris-%d" % k, vfuzz.fuzz_unit, mode="c06", runs=60000, seed=shard_seed(seed, 70 + k),
+                   label="atheris-%d%s" % (k, "-empty-corpus" if not corpus else ""), corpus=corpus, max_len=1200, wall_s=900)
+              for k, corpus in enumerate((fuzz_corpus(), []))]
+    else:
+        fz = []
+    return fz + [Unit("hyp-%d" % sh, hypothesis_unit, strategy=cases(), examples=n, seed=shard_seed(seed, sh),
                  label="hyp-%d" % sh) for sh in range(16)]
